@@ -356,10 +356,20 @@ func Valid(data []byte) bool {
 	if err != nil {
 		return false
 	}
-	if !decoder.More() {
-		return true
+	// only whitespace may follow the value (Decoder.More is about token streams:
+	// it also says "no more" in front of a closing bracket or an embedded NUL)
+	offset := decoder.InputOffset()
+	if offset < 0 || offset > int64(len(data)) {
+		return false
 	}
-	return decoder.InputOffset() >= int64(len(data))
+	for _, c := range data[offset:] {
+		switch c {
+		case ' ', '\n', '\r', '\t':
+		default:
+			return false
+		}
+	}
+	return true
 }
 
 func init() {
